@@ -18,9 +18,10 @@ program is generated with and without an `x = 1` prologue and ends with an epilo
 state of x (bare `x` statement and a call argument) and of y under try/except.  Every branch, loop count (0/1/2) and conditional raise reads its own digit of
 the input tuple and every function is called on ALL digit vectors.
 Oracle: CPython executing the identical source: ordered log of every completed atom (site id, value read), exception
-type, return value.  Two compiler configurations: default (Options.error_on_uninitialized=True; rejected functions
-are removed and the rejection itself is checked: the flagged read/del site must never complete under CPython on any
-input) and lenient (error_on_uninitialized=False, every program must build).
+type, return value.  Two compiler configurations: lenient (error_on_uninitialized=False, every program must build and
+is executed) and default (Options.error_on_uninitialized=True: ALL programs are compiled, every rejection is checked - the
+flagged read/del site must never complete under CPython on any input - and the accepted programs of <= 2 and of >= 4 nodes
+are executed too; the option does not change the emitted C of an accepted function).
 """
 import itertools, re, os
 from vlib import e2, farm, support
@@ -39,7 +40,8 @@ LEVEL_TEXT = ('Every function body of the grammar {x=1, del x, read x; thorough:
               'ALL digit vectors (every branch taken/not taken, every loop run 0/1/2 times); the ordered log of completed '
               'atoms with the values read, the exception type and a final probe of x and y must equal CPython; every '
               'compile-time "referenced before assignment" rejection is checked against CPython (the flagged site never '
-              'completes on any input).')
+              'completes on any input); in the default configuration the accepted 3-node programs are compiled but not executed '
+              '(same C as in the lenient build).')
 LEVEL_NOTE = ('Bounded program size (nodes <= 3, quick; reduced-alphabet size 4 in thorough), two variables, loops run at most '
               'twice.  Not generated because Cython rejects them by documented design: del (explicit or the implicit one of '
               '`except .. as x`) of a variable referenced by a nested def/lambda.  Not generated: def inside a match case '
@@ -109,6 +111,10 @@ def _def_in_match(prog, inside=False):
         if len(s) > 1 and any(_def_in_match(b, inside or s[0] in ('mt', 'mtx', 'ms', 'mc')) for b in s[1:]):
             return True
     return False
+
+
+def _size(prog):
+    return sum(1 for _ in gen._walk(prog))
 
 
 def _inputs(radix):
@@ -186,6 +192,8 @@ def _keyfn(tag, inp, exp, got):
     `[ctyped]` is appended when x is a C variable in that compiled function (F-C21-e class: a C variable cannot be
     unbound), so that the object-typed class of the same site keeps its own key."""
     key = _keyfn0(tag, inp, exp, got)
+    if 'tfp(tfp(' in tag:
+        key += '[nested-finally]'       # break/continue through two try/finally levels: its own class (F-C21-g)
     if '|crash|' not in key and _ctyped(tag, got):
         key += '[ctyped]'
     return key
@@ -354,7 +362,12 @@ def run(ctx):
                                                         'stage': r.stage, 'errors': r.errors[-3000:]})
     bad, rej_evals, rej_allfail = _check_rejections(ctx, fns, rejected)
 
-    mods = _mods(fns, 'L', {'error_on_uninitialized': False}, input_sets) + _mods(accepted, 'D', None, input_sets)
+    # The emitted C of an accepted function is the same in both configurations (the option only turns a warning into an
+    # error), so the default configuration is executed on a smaller complete sub-family: all programs of <= 2 nodes and all
+    # of >= 4 nodes (the loop/try/break, nested-finally and thorough 4-node families); the 3-node programs run in the lenient
+    # configuration only.  The rejection oracle above covers ALL programs.
+    d_run = [f for f in accepted if _size(f.prog) != 3]
+    mods = _mods(fns, 'L', {'error_on_uninitialized': False}, input_sets) + _mods(d_run, 'D', None, input_sets)
     for m in mods:
         for pt in m.parts:
             for fu in pt.funcs:
@@ -379,7 +392,7 @@ def run(ctx):
                 'input vectors giving the same trace for the same function collapse',
         'programs': len(fns), 'compiled_functions': st['programs'], 'modules_built': st['modules_built'],
         'configs': ['lenient error_on_uninitialized=False', 'default error_on_uninitialized=True'],
-        'default_accepted': len(accepted), 'default_rejected': len(rejected),
+        'default_accepted': len(accepted), 'default_rejected': len(rejected), 'default_accepted_executed': len(d_run),
         'rejections_checked_against_cpython': len(rejected), 'rejected_evaluations': rej_evals,
         'rejected_failing_on_every_input': rej_allfail, 'unjustified_rejections': bad,
         'read_sites_of_x_in_sources': reads, 'runtime_checked_sites_in_C_lenient': checked,
